@@ -12,7 +12,7 @@ from ..worlds import store
 ID = "C17"
 LEVEL = "exploration"
 CHUNK = 60
-BUDGET = {"quick": {"runs": 4000, "wall": 120}, "thorough": {"runs": 200000, "wall": 3000}}
+BUDGET = {"quick": {"runs": 4000, "wall": 120}, "thorough": {"runs": 200000, "wall": 1200}}
 RULE = ("stores of 3-16 events: kinds {1,7,19999,20000,25000,29999,30000}, expiration values "
         "{T-1,T,T+1,T+86400,10^10,'999',malformed,two tags,none} relative to the GC time T, 1-3 GC "
         "passes with clock advances in between, probes for ephemeral kinds after a pass, both back "
